@@ -255,5 +255,26 @@ impl InputBuffer {
             decreases char_len - __it_i
 //@end
 }
+
+/// LINK to unit v_build: the facts about the tables of a built text that v_build assumes of its opaque InputBuffer (buf_facts:
+/// sp_c2b = mod_c2b, sp_chidx = mod_b2c) follow from the postcondition ro_wf of the real InputBuffer::build
+proof fn lemma_buf_facts_for_v_build(b: InputBuffer)
+    requires ro_wf(b)
+    ensures
+        forall|k: int| 0 <= k < b.mod_chars@.len() ==> 0 <= #[trigger] b.mod_c2b@[k] < sbytes(b.modified).len(),
+        forall|p: int, x: int| 0 <= p < b.mod_chars@.len() && #[trigger] b.mod_c2b@[p] < x <= sbytes(b.modified).len() && is_char_boundary(sbytes(b.modified), x)
+            ==> p < #[trigger] b.mod_b2c@[x] <= b.mod_chars@.len(),
+{
+    let n = b.mod_chars@.len() as int;
+    let nb = sbytes(b.modified).len() as int;
+    assert forall|p: int, x: int| 0 <= p < n && #[trigger] b.mod_c2b@[p] < x <= nb && is_char_boundary(sbytes(b.modified), x)
+        implies p < #[trigger] b.mod_b2c@[x] <= n by {
+        if x < nb {
+            let c = b.mod_b2c@[x] as int;
+            assert(b.mod_c2b@[c] == x);
+            if c <= p { if c < p { assert(b.mod_c2b@[c] < b.mod_c2b@[p]); } }
+        }
+    }
+}
 } // verus!
 fn main() {}
